@@ -110,7 +110,7 @@ def check_proofs(pid, tier):
     exs = [n for n, (k, _) in st.items() if k == "Example"]
     res["theorems"], res["examples"] = thms, exs
     res["obligations"] = len(thms) + len(exs) + 2        # + statement pins + forbidden-word scan
-    r = coq_make([f"Properties/{pid}.vo", "Extract.vo", "ExtractCo.vo", "ExtractMon.vo"])
+    r = coq_make([f"Properties/{pid}.vo", "Extract.vo", "Proofs/NestDemo.vo", "ExtractCo.vo", "ExtractMon.vo"])
     res["log"] = r.stdout[-3000:]
     if r.returncode != 0:
         m = re.search(r'File "([^"]+)", line (\d+).*?\n(Error:.*?)(?:\n\n|\Z)', r.stdout, re.S)
